@@ -265,8 +265,10 @@ pub fn gen_case(rng: &mut Rng, large: bool, cheap_comp: bool) -> CCase {
         // --force-create over an existing file: smaller, about equal, or much larger than
         // the archive that will be written.
         spec.force = true;
-        spec.preexisting = Some(match rng.below(4) {
-            0 => rng.urange(0, 100),
+        spec.preexisting = Some(match rng.below(5) {
+            // 0 = "the same command has been run before" (see run_cli)
+            4 => 0,
+            0 => rng.urange(1, 100),
             1 => src_len + rng.urange(0, 2000),
             _ => src_len * 2 + rng.urange(1000, 300_000),
         });
@@ -358,6 +360,12 @@ pub fn run_cli(dir: &Path, name: &str, source: &[u8], spec: &CompressSpec, inj: 
         std::fs::write(&out_path, junk).expect("write pre-existing output");
     }
     let temp = scn::temp_path_of(&out_path);
+    if spec.force && spec.preexisting == Some(0) {
+        // Idempotent re-run: the output already holds the archive this very command wrote.
+        let mut first = scn::compress_run(dir, name, source, spec).0;
+        first.use_shim = false;
+        let _ = proc::run(&first);
+    }
     if let Some(n) = spec.stale_temp {
         std::fs::write(&temp, Rng::new(n as u64 ^ 0x7e).bytes(n)).expect("write stale temp file");
     }
